@@ -16,6 +16,7 @@ C09 == INSTANCE MonC09
 C10 == INSTANCE MonC10
 C11 == INSTANCE MonC11
 C12 == INSTANCE MonC12
+C13 == INSTANCE MonC13
 C14 == INSTANCE MonC14
 C15 == INSTANCE MonC15
 C16 == INSTANCE MonC16
@@ -24,16 +25,16 @@ C18 == INSTANCE MonC18
 C19 == INSTANCE MonC19
 C20 == INSTANCE MonC20
 
-Names == {"C01", "C02", "C03", "C04", "C05", "C06", "C07", "C08", "C09", "C10", "C11", "C12", "C14", "C15", "C16", "C17", "C18", "C19", "C20"}
+Names == {"C01", "C02", "C03", "C04", "C05", "C06", "C07", "C08", "C09", "C10", "C11", "C12", "C13", "C14", "C15", "C16", "C17", "C18", "C19", "C20"}
 
 MonInit(n) == CASE n = "C01" -> C01!Init0 [] n = "C02" -> C02!Init0 [] n = "C03" -> C03!Init0 [] n = "C04" -> C04!Init0 [] n = "C05" -> C05!Init0
                 [] n = "C06" -> C06!Init0 [] n = "C07" -> C07!Init0 [] n = "C08" -> C08!Init0 [] n = "C09" -> C09!Init0
-                [] n = "C10" -> C10!Init0 [] n = "C11" -> C11!Init0 [] n = "C12" -> C12!Init0 [] n = "C14" -> C14!Init0 [] n = "C15" -> C15!Init0
+                [] n = "C10" -> C10!Init0 [] n = "C11" -> C11!Init0 [] n = "C12" -> C12!Init0 [] n = "C13" -> C13!Init0 [] n = "C14" -> C14!Init0 [] n = "C15" -> C15!Init0
                 [] n = "C16" -> C16!Init0 [] n = "C17" -> C17!Init0 [] n = "C18" -> C18!Init0 [] n = "C19" -> C19!Init0 [] n = "C20" -> C20!Init0
 
 MonStep(n, s, e) == CASE n = "C01" -> C01!Apply(s, e) [] n = "C02" -> C02!Apply(s, e) [] n = "C03" -> C03!Apply(s, e) [] n = "C04" -> C04!Apply(s, e) [] n = "C05" -> C05!Apply(s, e)
                       [] n = "C06" -> C06!Apply(s, e) [] n = "C07" -> C07!Apply(s, e) [] n = "C08" -> C08!Apply(s, e) [] n = "C09" -> C09!Apply(s, e)
-                      [] n = "C10" -> C10!Apply(s, e) [] n = "C11" -> C11!Apply(s, e) [] n = "C12" -> C12!Apply(s, e) [] n = "C14" -> C14!Apply(s, e) [] n = "C15" -> C15!Apply(s, e)
+                      [] n = "C10" -> C10!Apply(s, e) [] n = "C11" -> C11!Apply(s, e) [] n = "C12" -> C12!Apply(s, e) [] n = "C13" -> C13!Apply(s, e) [] n = "C14" -> C14!Apply(s, e) [] n = "C15" -> C15!Apply(s, e)
                       [] n = "C16" -> C16!Apply(s, e) [] n = "C17" -> C17!Apply(s, e) [] n = "C18" -> C18!Apply(s, e) [] n = "C19" -> C19!Apply(s, e) [] n = "C20" -> C20!Apply(s, e)
 
 RECURSIVE MonFold(_, _, _)
